@@ -19,8 +19,12 @@ inductive Status where
   | inactive | initializing | alive | errored | killed
 deriving Repr, DecidableEq, Inhabited
 
+/-- `TrackOrder`: `none`, `init_charge`, or any of the `reindex_*` orders.  The latter only
+    permute the thread→slot map `track_slots`, which none of the track-initialisation kernels
+    consults (they address slots directly), and every test in those kernels is
+    `== / != TrackOrder::init_charge` (Generated/TrackInitEnums.lean `trackOrderMentions`). -/
 inductive Order where
-  | none | initCharge
+  | none | initCharge | reindex
 deriving Repr, DecidableEq, Inhabited
 
 structure Cfg where
@@ -187,15 +191,14 @@ def newTrackSlot (ini : Init) (old : Slot) (parentPos : Option Nat) : Slot :=
 
 /-- `get_idx(size)` of `InitTracksExecutor` -/
 def initGetIdx (s : State) (n tid size : Nat) : Nat :=
-  match s.cfg.order with
-  | .initCharge => s.indices.getD (indexBefore n tid) 0 + size - n
-  | .none => indexBefore size tid
+  if s.cfg.order = .initCharge then s.indices.getD (indexBefore n tid) 0 + size - n
+  else indexBefore size tid
 
 /-- index into the vacancy array used by thread `tid` for initializer `ini` -/
 def initVacIdx (s : State) (c : Counters) (n tid : Nat) (ini : Init) : Nat :=
-  match s.cfg.order with
-  | .initCharge => indexPartitioned n c.numVacancies (isNeutral ini.particle) tid
-  | .none => indexBefore c.numVacancies tid
+  if s.cfg.order = .initCharge then
+    indexPartitioned n c.numVacancies (isNeutral ini.particle) tid
+  else indexBefore c.numVacancies tid
 
 /-- `InitTracksExecutor::operator()(tid)`; `c` is the executor's by-value copy of the counters -/
 def initTrack (c : Counters) (n : Nat) (s : State) (tid : Nat) : State :=
@@ -214,19 +217,18 @@ def initializeTracks (s : State) : State :=
   let s3 :=
     if n > 0 then
       let s1 :=
-        match s.cfg.order with
-        | .initCharge =>
+        if s.cfg.order = .initCharge then
           -- fill_sequence over the whole `indices` collection, whose size is the number of
           -- track slots (TrackInitData.hh `resize(&data->indices, size)`)
           let s0 := { s with indices := List.range s.slots.length }
           { s0 with indices := partitionIndices s0 n }
-        | .none => s
+        else s
       let s2 := (List.range n).foldl (initTrack s1.c n) s1
       let s2 := { s2 with c := { s2.c with numInitializers := s2.c.numInitializers - n,
                                             numVacancies := s2.c.numVacancies - n } }
-      match s.cfg.order with
-      | .initCharge => { s2 with parents := List.replicate s2.parents.length none }
-      | .none => s2
+      if s.cfg.order = .initCharge then
+        { s2 with parents := List.replicate s2.parents.length none }
+      else s2
     else s
   { s3 with c := { s3.c with numActive := s3.cfg.slots - s3.c.numVacancies } }
 
